@@ -24,6 +24,9 @@ def gen_presentation(rng, n, canonical=False, path='LIB'):
     k = rng.choice([1, 1, 2, 2, 3, 4])
     k = min(k, n)
     cuts = sorted(rng.sample(range(1, n), k - 1)) if k > 1 else []
+    if k > 1 and n > 512 and rng.random() < 0.5:
+        cuts = sorted(set(cuts[1:] + [512]))      # a source that ends exactly at the growth step of the sequence array
+        k = len(cuts) + 1
     bounds = [0] + cuts + [n]
     path = rng.choice(['LIB', 'LIB', 'CLI'])
     sources = []
@@ -39,7 +42,12 @@ def gen_presentation(rng, n, canonical=False, path='LIB'):
              'crlf': 1 if rng.random() < 0.15 else 0, 'trail': rng.choice(['', '', ' ', '  \t']) if fmt in ('fasta', 'afasta') else '',
              'seed': rng.getrandbits(32)}
         sources.append(s)
-    if path == 'CLI' and rng.random() < 0.4:
+    if rng.random() < 0.08:
+        # a split in which one of the sources holds no record at all (an empty file among the inputs)
+        sources.insert(rng.randrange(len(sources) + 1), {'where': 'file', 'fmt': 'fasta', 'recs': [], 'width': 0, 'gapfrac': 0.0, 'gapsym': '-', 'blank': 0, 'crlf': 0, 'trail': '', 'seed': 0, 'empty': 1})
+    if sources[0].get('empty'):
+        pass
+    elif path == 'CLI' and rng.random() < 0.4:
         sources[0]['where'] = 'stdin'         # stdin is always read first by the CLI
     elif path == 'LIB' and rng.random() < 0.15:
         sources[0]['where'] = 'stdin'
@@ -49,7 +57,7 @@ def gen_presentation(rng, n, canonical=False, path='LIB'):
 def gen_spec(prop, rng, tier):
     wl = gen.gen_workload(rng, weights=[12, 40, 20, 4, 10, 9, 5])
     if rng.random() < 0.04:
-        wl = gen.gen_workload(rng, profile=rng.choice(['many', 'boundary', 'manylines']))
+        wl = gen.gen_workload(rng, profile=rng.choice(['many', 'boundary', 'manylines', 'seqcap']))
     # C04's premise: names and residues; keep names free of blanks and distinct
     n = len(wl['seqs'])
     fasta_only = rng.random() < 0.12
@@ -70,6 +78,8 @@ def render_source(wl, src):
     """bytes of one source in its format (independent emitters; column-consistent gap insertion)"""
     import random
     rng = random.Random(src['seed'])
+    if not src['recs']:
+        return b''
     names = [wl['names'][i].encode('latin-1') for i in src['recs']]
     seqs = [wl['seqs'][i] for i in src['recs']]
     fmt = src['fmt']
@@ -299,10 +309,10 @@ def shrinks(spec, viol):
             srcs = []
             for src in p['sources']:
                 src['recs'] = [remap[i] for i in src['recs'] if i in remap]
-                if src['recs']:
+                if src['recs'] or src.get('empty'):
                     srcs.append(src)
             p['sources'] = srcs
-            if not srcs:
+            if not any(src['recs'] for src in srcs):
                 return None
         return s
     chunk = n // 2
@@ -329,7 +339,7 @@ def shrinks(spec, viol):
         if len(p['sources']) > 1:
             # merge all records into the first source
             s = copy.deepcopy(spec)
-            s['pres'][k]['sources'] = [dict(p['sources'][0], recs=list(range(n)))]
+            s['pres'][k]['sources'] = [dict([x for x in p['sources'] if x['recs']][0], recs=list(range(n)))]
             yield s
         for j, src in enumerate(p['sources']):
             for key, val in (('where', 'file'), ('crlf', 0), ('blank', 0), ('trail', ''), ('ragged', 0), ('counts', 0), ('cons', 0), ('gapfrac', 0.0), ('width', 60), ('fmt', 'afasta'), ('fmt', 'fasta')):
